@@ -1,6 +1,7 @@
 import BppModel.LU
 import BppProofs.Lemmas.ScalarReal
-import Mathlib.LinearAlgebra.Matrix.Determinant.Basic
+import Mathlib.LinearAlgebra.Matrix.Block
+import Mathlib.Algebra.BigOperators.Fin
 /-! Helper lemmas for C05 (LU decomposition).  Property theorems are in `Props/C05.lean`. -/
 namespace Bpp.LU
 open Bpp
@@ -16,6 +17,377 @@ theorem Mat.ext {A B : Mat α m n} (h : ∀ i j, A.get i j = B.get i j) : A = B 
   apply Vector.ext; intro i hi
   apply Vector.ext; intro j hj
   exact h ⟨i, hi⟩ ⟨j, hj⟩
+
+/-- invariant rule for an upward loop `for k in 0..n-1` -/
+theorem foldl_inv {σ : Type} (P : Nat → σ → Prop) :
+    ∀ (n : Nat) (f : σ → Fin n → σ) (s : σ), P 0 s →
+      (∀ (k : Fin n) (t : σ), P k.val t → P (k.val + 1) (f t k)) → P n (Fin.foldl n f s) := by
+  intro n
+  induction n with
+  | zero => intro f s h0 _; simpa using h0
+  | succ n ih =>
+    intro f s h0 hstep
+    rw [Fin.foldl_succ_last]
+    have := ih (fun t k => f t k.castSucc) s h0 (fun k t hk => hstep k.castSucc t hk)
+    exact hstep (Fin.last n) _ this
+
+/-- invariant rule for a downward loop `for k in n-1..0` -/
+theorem foldr_inv {σ : Type} (P : Nat → σ → Prop) :
+    ∀ (n : Nat) (f : Fin n → σ → σ) (s : σ), P n s →
+      (∀ (k : Fin n) (t : σ), P (k.val + 1) t → P k.val (f k t)) → P 0 (Fin.foldr n f s) := by
+  intro n
+  induction n with
+  | zero => intro f s h0 _; simpa using h0
+  | succ n ih =>
+    intro f s h0 hstep
+    rw [Fin.foldr_succ_last]
+    exact ih (fun k t => f k.castSucc t) (f (Fin.last n) s) (hstep (Fin.last n) s h0)
+      (fun k t hk => hstep k.castSucc t hk)
 end Basic
+
+/-! ## sums -/
+section Sums
+variable {n : Nat}
+
+theorem sumFin_eq (f : Fin n → ℝ) : sumFin n f = ∑ l : Fin n, f l := by
+  unfold sumFin
+  induction n with
+  | zero => simp
+  | succ n ih =>
+    rw [Fin.foldl_succ_last, Fin.sum_univ_castSucc, ih]
+
+/-- `Σ_{l < c} f l` -/
+noncomputable def psum (c : Nat) (f : Fin n → ℝ) : ℝ := ∑ l : Fin n, if l.val < c then f l else 0
+
+theorem psum_zero (f : Fin n → ℝ) : psum 0 f = 0 := by simp [psum]
+
+theorem psum_succ (c : Nat) (hc : c < n) (f : Fin n → ℝ) : psum (c + 1) f = psum c f + f ⟨c, hc⟩ := by
+  unfold psum
+  have : f ⟨c, hc⟩ = ∑ l : Fin n, if l = ⟨c, hc⟩ then f l else 0 := by simp
+  rw [this, ← Finset.sum_add_distrib]
+  apply Finset.sum_congr rfl
+  intro l _
+  by_cases h1 : l.val < c
+  · have : l ≠ ⟨c, hc⟩ := by intro h; rw [h] at h1; simp at h1
+    simp [h1, this, Nat.lt_succ_of_lt h1]
+  · by_cases h2 : l = ⟨c, hc⟩
+    · subst h2; simp
+    · have : ¬ l.val < c + 1 := by
+        intro h; apply h2; ext; simp; omega
+      simp [h1, h2, this]
+
+theorem psum_congr (c : Nat) (f g : Fin n → ℝ) (h : ∀ l : Fin n, l.val < c → f l = g l) : psum c f = psum c g := by
+  unfold psum
+  apply Finset.sum_congr rfl
+  intro l _
+  by_cases h1 : l.val < c
+  · simp [h1, h l h1]
+  · simp [h1]
+
+theorem psum_all (c : Nat) (hc : n ≤ c) (f : Fin n → ℝ) : psum c f = ∑ l : Fin n, f l := by
+  unfold psum
+  apply Finset.sum_congr rfl
+  intro l _
+  have : l.val < c := by omega
+  simp [this]
+
+theorem psum_eq_ite (c : Nat) (f : Fin n → ℝ) : psum c f = ∑ l : Fin n, if l.val < c then f l else 0 := rfl
+
+end Sums
+
+/-! ## the constructor: pivot search -/
+section Pivot
+variable {m n : Nat}
+
+theorem numAbs_eq (x : ℝ) : numAbs x = |x| := by
+  unfold numAbs
+  simp only [ScalarReal.ltb_iff, ScalarReal.zero_eq]
+  split
+  · rename_i h; exact (abs_of_neg h).symm
+  · rename_i h; exact (abs_of_nonneg (not_lt.mp h)).symm
+
+/-- the pivot row is at or below the diagonal and carries a largest magnitude of the column
+from the diagonal down -/
+theorem findPivot_spec (W : Mat ℝ m n) (k : Fin n) (kr : Fin m) :
+    kr.val ≤ (findPivot W k kr).val ∧
+    ∀ i : Fin m, kr.val ≤ i.val → |W.get i k| ≤ |W.get (findPivot W k kr) k| := by
+  have key := foldl_inv (σ := Fin m)
+    (fun t p => kr.val ≤ p.val ∧ ∀ i : Fin m, kr.val ≤ i.val → (i.val < t ∨ i = kr) → |W.get i k| ≤ |W.get p k|)
+    m (fun p i =>
+      if kr.val < i.val then
+        (if Scalar.gtb (numAbs (W.get i k)) (numAbs (W.get p k)) then i else p)
+      else p) kr ?_ ?_
+  · refine ⟨key.1, fun i hi => key.2 i hi (Or.inl i.isLt)⟩
+  · refine ⟨le_refl _, ?_⟩
+    intro i _ hi
+    rcases hi with hi | hi
+    · omega
+    · subst hi; exact le_refl _
+  · intro i0 p ⟨hp1, hp2⟩
+    simp only [ScalarReal.gtb_iff, numAbs_eq]
+    by_cases h1 : kr.val < i0.val
+    · simp only [h1, if_true]
+      by_cases h2 : |W.get p k| < |W.get i0 k|
+      · simp only [h2, if_true]
+        refine ⟨le_of_lt h1, ?_⟩
+        intro i hi hi2
+        rcases hi2 with hi2 | hi2
+        · by_cases h3 : i.val < i0.val
+          · exact le_trans (hp2 i hi (Or.inl h3)) (le_of_lt h2)
+          · have : i = i0 := by ext; omega
+            subst this; exact le_refl _
+        · exact le_trans (hp2 i hi (Or.inr hi2)) (le_of_lt h2)
+      · simp only [h2, if_false]
+        refine ⟨hp1, ?_⟩
+        intro i hi hi2
+        rcases hi2 with hi2 | hi2
+        · by_cases h3 : i.val < i0.val
+          · exact hp2 i hi (Or.inl h3)
+          · have : i = i0 := by ext; omega
+            subst this; exact not_lt.mp h2
+        · exact hp2 i hi (Or.inr hi2)
+    · simp only [h1, if_false]
+      refine ⟨hp1, ?_⟩
+      intro i hi hi2
+      rcases hi2 with hi2 | hi2
+      · by_cases h3 : i.val < i0.val
+        · exact hp2 i hi (Or.inl h3)
+        · have : i = kr := by ext; omega
+          exact hp2 i hi (Or.inr this)
+      · exact hp2 i hi (Or.inr hi2)
+
+end Pivot
+
+/-! ## the constructor: loop invariant `A(piv,:) = L_k · R_k` -/
+section Factor
+variable {m n : Nat}
+
+/-- After `k` iterations: row `piv[i]` of `A` equals row `i` of (unit lower factor built from the
+multipliers stored in columns `< k`) times (the working matrix with the stored multipliers read
+as zeros).  Entry-wise, with `W = s.lu`:
+`A(piv i, j) = R(i,j) + Σ_{l < min k i} W(i,l) · R(l,j)`, `R(i,j) = 0` if `j < k ∧ j < i`, else `W(i,j)`. -/
+def FactorInv (h : n ≤ m) (A : Mat ℝ m n) (k : Nat) (s : State ℝ m n) : Prop :=
+  ∀ (i : Fin m) (j : Fin n),
+    A.get (s.piv[i.val]'i.isLt) j =
+      (if j.val < k ∧ j.val < i.val then 0 else s.lu.get i j)
+      + psum (min k i.val) (fun l => s.lu.get i l * (if j.val < l.val then 0 else s.lu.get (l.castLE h) j))
+
+theorem factorInv_init (h : n ≤ m) (A : Mat ℝ m n) : FactorInv h A 0 (init A) := by
+  intro i j
+  simp [init, psum_zero]
+
+/-- the row exchange of iteration `k` (rows `p, kr ≥ k`) keeps the invariant -/
+theorem factorInv_exchange (h : n ≤ m) (A : Mat ℝ m n) (k : Nat) (s : State ℝ m n) (p kr : Fin m)
+    (hp : k ≤ p.val) (hkr : k ≤ kr.val) (hs : FactorInv h A k s) : FactorInv h A k (exchange s p kr) := by
+  unfold exchange
+  by_cases hpk : p = kr
+  · simp [hpk]; exact hs
+  · simp only [ne_eq, hpk, not_false_eq_true, if_true]
+    intro i j
+    -- the row that sits at position `i` after the exchange
+    obtain ⟨i', hi'piv, hi'lu, hi'⟩ : ∃ i' : Fin m,
+        (swapPiv s.piv p kr)[i.val]'i.isLt = s.piv[i'.val]'i'.isLt ∧
+        (∀ j', (swapRows s.lu p kr).get i j' = s.lu.get i' j') ∧
+        (i' = i ∨ (k ≤ i.val ∧ k ≤ i'.val)) := by
+      by_cases h1 : i = kr
+      · refine ⟨p, ?_, ?_, Or.inr ⟨by rw [h1]; exact hkr, hp⟩⟩
+        · simp [swapPiv, h1]
+        · intro j'; simp [swapRows, h1]
+      · by_cases h2 : i = p
+        · subst h2
+          refine ⟨kr, ?_, ?_, Or.inr ⟨hp, hkr⟩⟩
+          · simp [swapPiv, h1]
+          · intro j'; simp [swapRows, h1]
+        · refine ⟨i, ?_, ?_, Or.inl rfl⟩
+          · simp [swapPiv, h1, h2]
+          · intro j'; simp [swapRows, h1, h2]
+    have hcond : (j.val < k ∧ j.val < i.val) ↔ (j.val < k ∧ j.val < i'.val) := by
+      rcases hi' with hi' | hi'
+      · rw [hi']
+      · constructor <;> intro hh <;> exact ⟨hh.1, by omega⟩
+    have hmin : min k i.val = min k i'.val := by
+      rcases hi' with hi' | hi'
+      · rw [hi']
+      · rw [min_eq_left hi'.1, min_eq_left hi'.2]
+    show A.get ((swapPiv s.piv p kr)[i.val]'i.isLt) j = _
+    rw [hi'piv, hs i' j]
+    simp only [hi'lu]
+    congr 1
+    · by_cases hc : j.val < k ∧ j.val < i.val
+      · rw [if_pos hc, if_pos (hcond.mp hc)]
+      · rw [if_neg hc, if_neg (fun h' => hc (hcond.mpr h'))]
+    · rw [hmin]
+      apply psum_congr
+      intro l hl
+      have hlk : l.val < k := lt_of_lt_of_le hl (min_le_left _ _)
+      have h1 : (l.castLE h) ≠ kr := by
+        intro e; have := congrArg Fin.val e; simp at this; omega
+      have h2 : (l.castLE h) ≠ p := by
+        intro e; have := congrArg Fin.val e; simp at this; omega
+      simp [swapRows, h1, h2]
+
+/-- the elimination of iteration `k` advances the invariant; when the pivot is zero the iteration
+is skipped, which is sound because the pivot search then guarantees a zero column below it -/
+theorem factorInv_eliminate (h : n ≤ m) (A : Mat ℝ m n) (k : Fin n) (s : State ℝ m n)
+    (hs : FactorInv h A k.val s)
+    (hz : s.lu.get (k.castLE h) k = 0 → ∀ i : Fin m, k.val < i.val → s.lu.get i k = 0) :
+    FactorInv h A (k.val + 1) { s with lu := eliminate s.lu k (k.castLE h) } := by
+  intro i j
+  have hsij := hs i j
+  show A.get (s.piv[i.val]'i.isLt) j = _
+  rw [hsij]
+  simp only
+  unfold eliminate
+  simp only [ScalarReal.eqb_iff, ScalarReal.zero_eq]
+  by_cases hpz : s.lu.get (k.castLE h) k = 0
+  · -- skipped iteration
+    simp only [hpz, if_true]
+    by_cases hik : k.val < i.val
+    · have hz' := hz hpz i hik
+      rw [min_eq_left (le_of_lt hik), min_eq_left (by omega : k.val + 1 ≤ i.val), psum_succ _ k.isLt]
+      simp only [Fin.eta, hz', zero_mul, add_zero]
+      congr 1
+      by_cases hjk : j.val < k.val
+      · rw [if_pos ⟨hjk, by omega⟩, if_pos ⟨by omega, by omega⟩]
+      · rw [if_neg (fun hh => hjk hh.1)]
+        by_cases hjk2 : j.val = k.val
+        · have : j = k := Fin.ext hjk2
+          rw [if_pos ⟨by omega, by omega⟩, this, hz']
+        · rw [if_neg (fun hh => by omega)]
+    · have e1 : min k.val i.val = i.val := min_eq_right (by omega)
+      have e2 : min (k.val + 1) i.val = i.val := min_eq_right (by omega)
+      rw [e1, e2]
+      congr 1
+      by_cases hc : j.val < k.val ∧ j.val < i.val
+      · rw [if_pos hc, if_pos ⟨by omega, hc.2⟩]
+      · rw [if_neg hc, if_neg (fun hh => hc ⟨by omega, hh.2⟩)]
+  · simp only [hpz, if_false, Mat.get_ofFn, Fin.val_castLE]
+    by_cases hik : k.val < i.val
+    · rw [min_eq_left (le_of_lt hik), min_eq_left (by omega : k.val + 1 ≤ i.val), psum_succ _ k.isLt]
+      simp only [Fin.eta, hik, if_true, lt_irrefl, if_false]
+      have hps : psum k.val (fun l => (if l = k then s.lu.get i k / s.lu.get (k.castLE h) k
+            else if k.val < l.val then s.lu.get i l - s.lu.get i k / s.lu.get (k.castLE h) k * s.lu.get (k.castLE h) l
+            else s.lu.get i l) *
+            (if j.val < l.val then 0 else
+              if k.val < l.val then
+                (if j = k then s.lu.get (l.castLE h) k / s.lu.get (k.castLE h) k
+                 else if k.val < j.val then s.lu.get (l.castLE h) j - s.lu.get (l.castLE h) k / s.lu.get (k.castLE h) k * s.lu.get (k.castLE h) j
+                 else s.lu.get (l.castLE h) j)
+              else s.lu.get (l.castLE h) j))
+          = psum k.val (fun l => s.lu.get i l * (if j.val < l.val then 0 else s.lu.get (l.castLE h) j)) := by
+        apply psum_congr
+        intro l hl
+        have h1 : l ≠ k := by intro e; rw [e] at hl; exact lt_irrefl _ hl
+        have h2 : ¬ k.val < l.val := by omega
+        simp only [h1, h2, if_false]
+      rw [hps]
+      rcases lt_trichotomy j.val k.val with hjk | hjk | hjk
+      · have h1 : j ≠ k := by intro e; rw [e] at hjk; exact lt_irrefl _ hjk
+        rw [if_pos ⟨hjk, by omega⟩, if_pos ⟨by omega, by omega⟩, if_pos hjk]
+        ring
+      · have : j = k := Fin.ext hjk
+        subst this
+        rw [if_neg (fun hh => lt_irrefl _ hh.1), if_pos ⟨by omega, hik⟩, if_neg (lt_irrefl _)]
+        field_simp
+        ring
+      · have h1 : j ≠ k := by intro e; rw [e] at hjk; exact lt_irrefl _ hjk
+        have h3 : ¬ j.val < k.val := by omega
+        rw [if_neg (fun hh => by omega), if_neg (fun hh => by omega), if_neg (by omega)]
+        simp only [h1, hjk, h3, if_true, if_false]
+        ring
+    · have e1 : min k.val i.val = i.val := min_eq_right (by omega)
+      have e2 : min (k.val + 1) i.val = i.val := min_eq_right (by omega)
+      rw [e1, e2]
+      simp only [hik, if_false]
+      congr 1
+      · by_cases hc : j.val < k.val ∧ j.val < i.val
+        · rw [if_pos hc, if_pos ⟨by omega, hc.2⟩]
+        · rw [if_neg hc, if_neg (fun hh => hc ⟨by omega, hh.2⟩)]
+      · apply psum_congr
+        intro l hl
+        have h2 : ¬ k.val < l.val := by omega
+        simp only [h2, if_false]
+
+/-- after the exchange the diagonal entry carries the largest magnitude of its column from the
+diagonal down (partial pivoting) -/
+theorem exchange_pivot_max (s : State ℝ m n) (k : Fin n) (kr : Fin m) (i : Fin m) (hi : kr.val ≤ i.val) :
+    |(exchange s (findPivot s.lu k kr) kr).lu.get i k| ≤ |(exchange s (findPivot s.lu k kr) kr).lu.get kr k| := by
+  obtain ⟨hp1, hp2⟩ := findPivot_spec s.lu k kr
+  generalize findPivot s.lu k kr = p at hp1 hp2
+  unfold exchange
+  by_cases hpk : p = kr
+  · subst hpk; simpa using hp2 i hi
+  · simp only [ne_eq, hpk, not_false_eq_true, if_true, swapRows, Mat.get_ofFn]
+    by_cases h1 : i = kr
+    · simp [h1]
+    · by_cases h2 : i = p
+      · simp only [h1, h2, if_true, if_false]
+        rw [if_neg hpk]
+        simpa using hp2 kr (le_refl _)
+      · simp only [h1, h2, if_false, if_true]
+        exact hp2 i hi
+
+theorem factorInv_step (h : n ≤ m) (A : Mat ℝ m n) (k : Fin n) (s : State ℝ m n)
+    (hs : FactorInv h A k.val s) : FactorInv h A (k.val + 1) (step h s k) := by
+  unfold step
+  simp only
+  have hp := (findPivot_spec s.lu k (k.castLE h)).1
+  have h1 := factorInv_exchange h A k.val s (findPivot s.lu k (k.castLE h)) (k.castLE h)
+    (by simpa using hp) (by simp) hs
+  apply factorInv_eliminate h A k _ h1
+  intro hz i hi
+  have := exchange_pivot_max s k (k.castLE h) i (by simp; omega)
+  rw [hz, abs_zero] at this
+  exact abs_eq_zero.mp (le_antisymm this (abs_nonneg _))
+
+theorem factorInv_factor (h : n ≤ m) (A : Mat ℝ m n) : FactorInv h A n (factor h A) := by
+  unfold factor
+  exact foldl_inv (fun k s => FactorInv h A k s) n (step h) (init A) (factorInv_init h A)
+    (fun k t hk => factorInv_step h A k t hk)
+
+/-- the invariant at exit is the factorisation `A(piv,:) = L · U` with the accessors' `L`, `U` -/
+theorem factor_entries (h : n ≤ m) (A : Mat ℝ m n) (i : Fin m) (j : Fin n) :
+    (permuteRows (factor h A).piv A).get i j = (matMul (getL (factor h A)) (getU h (factor h A))).get i j := by
+  have hinv := factorInv_factor h A i j
+  generalize factor h A = s at hinv
+  simp only [permuteRows, matMul, Mat.get_ofFn, sumFin_eq, getL, getU, ScalarReal.one_eq, ScalarReal.zero_eq]
+  rw [hinv, add_comm]
+  have hsplit : ∀ l : Fin n,
+      (if l.val < i.val then s.lu.get i l else if i.val = l.val then 1 else 0) *
+        (if l.val ≤ j.val then s.lu.get (l.castLE h) j else 0)
+      = (if l.val < min n i.val then s.lu.get i l * (if j.val < l.val then 0 else s.lu.get (l.castLE h) j) else 0)
+        + (if i.val = l.val then (if l.val ≤ j.val then s.lu.get (l.castLE h) j else 0) else 0) := by
+    intro l
+    have hl : l.val < n := l.isLt
+    by_cases h1 : l.val < i.val
+    · have h2 : l.val < min n i.val := lt_min hl h1
+      have h3 : ¬ i.val = l.val := by omega
+      rw [if_pos h1, if_pos h2, if_neg h3, add_zero]
+      by_cases h4 : l.val ≤ j.val
+      · rw [if_pos h4, if_neg (by omega)]
+      · rw [if_neg h4, if_pos (by omega)]
+    · have h2 : ¬ l.val < min n i.val := fun hh => h1 (lt_of_lt_of_le hh (min_le_right _ _))
+      rw [if_neg h1, if_neg h2, zero_add]
+      by_cases h3 : i.val = l.val
+      · rw [if_pos h3, if_pos h3, one_mul]
+      · rw [if_neg h3, if_neg h3, zero_mul]
+  simp only [hsplit, Finset.sum_add_distrib, psum]
+  congr 1
+  by_cases hin : i.val < n
+  · have : ∀ l : Fin n, (i.val = l.val) = (l = ⟨i.val, hin⟩) := by
+      intro l; apply propext; constructor
+      · intro e; ext; exact e.symm
+      · intro e; rw [e]
+    simp only [this, Finset.sum_ite_eq', Finset.mem_univ, if_true]
+    have hc : (⟨i.val, hin⟩ : Fin n).castLE h = i := by ext; simp
+    rw [hc]
+    by_cases h5 : j.val < i.val
+    · rw [if_pos ⟨j.isLt, h5⟩, if_neg (by omega)]
+    · rw [if_neg (fun hh => h5 hh.2), if_pos (by omega)]
+  · have : ∀ l : Fin n, ¬ i.val = l.val := by intro l; have := l.isLt; omega
+    simp only [this, if_false, Finset.sum_const_zero]
+    rw [if_pos ⟨j.isLt, by have := j.isLt; omega⟩]
+
+end Factor
 
 end Bpp.LU
